@@ -22,18 +22,19 @@ import (
 
 // Config is one moq command line.
 type Config struct {
-	Stub       bool     `json:"stub,omitempty"`
-	SkipEnsure bool     `json:"skip_ensure,omitempty"`
-	WithResets bool     `json:"with_resets,omitempty"`
-	DestKind   string   `json:"dest_kind"`        // implicit | same | other | test
-	Pkg        string   `json:"pkg,omitempty"`    // value of -pkg ("" = absent)
-	Fmt        string   `json:"fmt,omitempty"`    // "" | gofmt | goimports | noop
-	Args       []string `json:"args"`             // Iface or Iface:Alias
-	Invoke     string   `json:"invoke,omitempty"` // srcdot | rootrel | foreignabs
-	Out        string   `json:"out,omitempty"`    // "" = stdout; else path relative to the world root
-	Rm         bool     `json:"rm,omitempty"`
-	RelOut     bool     `json:"rel_out,omitempty"`  // pass -out relative to the working directory instead of absolute
-	RawArgv    []string `json:"raw_argv,omitempty"` // if set: used verbatim (C17/C19 hostile invocations)
+	Stub       bool              `json:"stub,omitempty"`
+	SkipEnsure bool              `json:"skip_ensure,omitempty"`
+	WithResets bool              `json:"with_resets,omitempty"`
+	DestKind   string            `json:"dest_kind"`        // implicit | same | other | test
+	Pkg        string            `json:"pkg,omitempty"`    // value of -pkg ("" = absent)
+	Fmt        string            `json:"fmt,omitempty"`    // "" | gofmt | goimports | noop
+	Args       []string          `json:"args"`             // Iface or Iface:Alias
+	Invoke     string            `json:"invoke,omitempty"` // srcdot | rootrel | foreignabs
+	Out        string            `json:"out,omitempty"`    // "" = stdout; else path relative to the world root
+	Rm         bool              `json:"rm,omitempty"`
+	RelOut     bool              `json:"rel_out,omitempty"`   // pass -out relative to the working directory instead of absolute
+	RawArgv    []string          `json:"raw_argv,omitempty"`  // if set: used verbatim (C17/C19 hostile invocations)
+	BoolForm   map[string]string `json:"bool_form,omitempty"` // flag name -> literal spelling used instead of the bare flag / omission (e.g. "-with-resets=false")
 }
 
 // Case is a world plus a command line.
@@ -214,15 +215,16 @@ func (c *Case) Argv(world string) (argv []string, cwd string) {
 		cwd = filepath.Join(root, c.SrcDir)
 		srcArg = "."
 	}
-	if cfg.Stub {
-		argv = append(argv, "-stub")
+	boolFlag := func(name string, v bool) {
+		if form := cfg.BoolForm[name]; form != "" {
+			argv = append(argv, form)
+		} else if v {
+			argv = append(argv, "-"+name)
+		}
 	}
-	if cfg.SkipEnsure {
-		argv = append(argv, "-skip-ensure")
-	}
-	if cfg.WithResets {
-		argv = append(argv, "-with-resets")
-	}
+	boolFlag("stub", cfg.Stub)
+	boolFlag("skip-ensure", cfg.SkipEnsure)
+	boolFlag("with-resets", cfg.WithResets)
 	if cfg.Pkg != "" {
 		argv = append(argv, "-pkg", cfg.Pkg)
 	}
